@@ -30,10 +30,18 @@ func (r *tqvResp) Context(ctx context.Context)     {}
 // the keys the same call lists as obscured, and the fields selected by key for retention.
 type tqvLog struct{ seen []string }
 
-func (l *tqvLog) msg(format string, args ...interface{}) { l.seen = append(l.seen, fmt.Sprintf(format, args...)) }
-func (l *tqvLog) Infof(ctx context.Context, format string, args ...interface{})  { l.msg(format, args...) }
-func (l *tqvLog) Errorf(ctx context.Context, format string, args ...interface{}) { l.msg(format, args...) }
-func (l *tqvLog) Debugf(ctx context.Context, format string, args ...interface{}) { l.msg(format, args...) }
+func (l *tqvLog) msg(format string, args ...interface{}) {
+	l.seen = append(l.seen, fmt.Sprintf(format, args...))
+}
+func (l *tqvLog) Infof(ctx context.Context, format string, args ...interface{}) {
+	l.msg(format, args...)
+}
+func (l *tqvLog) Errorf(ctx context.Context, format string, args ...interface{}) {
+	l.msg(format, args...)
+}
+func (l *tqvLog) Debugf(ctx context.Context, format string, args ...interface{}) {
+	l.msg(format, args...)
+}
 func (l *tqvLog) Record(ctx context.Context, r map[string]string, obscure ...string) {
 	hide := map[string]bool{}
 	for _, k := range obscure {
@@ -77,8 +85,8 @@ func TestTqvWitness(t *testing.T) {
 		}
 	}
 	out := map[string]interface{}{
-		"obligation": "cmds/server/handlers.AuthenticateStart.Handle/pre@cmds/server/handlers.loggerProvider.Record#1.1",
-		"scenario":   "PAP login START with minor version 0 (unknown to the router), password token in the data field",
+		"obligation":    "cmds/server/handlers.AuthenticateStart.Handle/pre@cmds/server/handlers.loggerProvider.Record#1.1",
+		"scenario":      "PAP login START with minor version 0 (unknown to the router), password token in the data field",
 		"marshal_error": fmt.Sprint(err), "replies": resp.replies, "logged_with_token": leaks, "violated": len(leaks) > 0,
 	}
 	b, _ := json.Marshal(out)
